@@ -54,6 +54,10 @@ def unit_classify(U):
             it.contracts[IT._FileIterator.open_function] = lambda interp, a, k: PL.GhostLines([line])
 
             def setup(env, c, iterable):
+                if type(iterable).__name__ == "IGen" or hasattr(iterable, "gi_frame"):
+                    # the loop walks a helper generator (which may already have stripped / numbered / filtered the lines):
+                    # what it receives is not a raw line of the file, the unit cannot bind to it
+                    raise Undecided("the line loop iterates a helper generator, not the file handle (loop structure not recognised)")
                 old[:] = ["<earlier>"]
                 env.vars["self"].directives = old          # arbitrary earlier state of this pass
                 env.store("valid_lines", SInt(z3.Int("valid0")))
